@@ -16,6 +16,10 @@ TAXA_POOL = [
     "meta/program", "meta/count/x", "a", "a/b", "a/bc", "a/b_c", "a/b/c", "a/b/c/d", "flow/loop",
     "flow/loop/for", "flow/loop/while", "flow/conditional", "op/mult", "op/multiply", "var/assignment",
     "x", "x/y", "call/print", "def/function",
+    # non-word characters INSIDE a segment: a pattern stops at a word boundary, not at a slash (seeded change C04-d)
+    "import/standard/urllib", "import/standard/urllib.request", "import/standard/xml.etree.ElementTree", "a/b-c", "a/b.c",
+    # names that START with "meta" without being under `meta/` (seeded changes C07-c, C17-e): ordinary taxa
+    "metaclass/definition", "meta", "meta_x/y", "meta-programming/x",
 ]
 # some paths, read as regular expressions, match OTHER paths too ("q.py" matches "q_py.py", "zz.py" matches "zzapy.py"):
 # a `.py` criterion is a pattern matched from the start, never a mere path (seeded change C04-c)
@@ -23,14 +27,17 @@ PROG_POOL = ["p1.py", "p2.py", "p10.py", "dir/p1.py", "dir/q.py", "q.py", "zz.py
 TAXON_PATTERNS = [
     "a", "a/b", "a/b$", "a/(b|bc)", "a/b.", "flow", "flow/loop", "flow/lo", "flow/.*for", ".*", "op|var", "op/mult",
     "op/mult$", "meta", "meta/program", "x", "x/y", "nothing/here", "var/assignment", "call", "a/b/c", "a/b_", "def/function",
-    "flow/conditional", "[ax]",
+    "flow/conditional", "[ax]", "import/standard/urllib", "import/standard/xml", "import/standard/xml.etree", "a/b-",
+    "import/standard/urllib\\.", "import",
 ]
 PROG_PATTERNS = ["p1.py", "p1\\.py", "dir/.*\\.py", "q.py", ".*\\.py", "p.*py$|zz.py", "zz.py", "nothing.py", "p1_bis.py", "(dir/)?p1.py"]
 PREDICATES = [
     "contains", "inside", "after", "before", "is", "equals", "x≤y≤y≤x", "x<y", "y1 < x1 == x2 <= y2", "x == y",
     "overlaps", "meets", "started by", "finishes", "in", "y≤x≤x≤y", "x<x<y<y", "x=x=y=y", "X <= Y", "during",
 ]
-NEG_FORMS = [("", ""), ("", ""), ("not ", ""), ("!", ""), ("is not ", ""), ("", " not"), ("! ", "")]
+NEG_FORMS = [("", ""), ("", ""), ("not ", ""), ("!", ""), ("is not ", ""), ("", " not"), ("! ", ""),
+             # "adding the word not": any white space separates it (seeded change C05-e: literal "not " only)
+             ("not\t", ""), ("", "\tnot"), ("not\n", ""), ("not  ", ""), ("NOT\t", ""), ("  !", ""), ("", " \t not")]
 BAD_PREDICATES = ["foobar", "x>y", "is  after", ""]
 OPERATIONS = ["include", "exclude", "impart", "hide", "include all", "exclude all", "include any", "exclude any",
               "include", "exclude"]
@@ -49,14 +56,16 @@ def gen_db(rng, max_programs=6, meta_program="mostly", imports=True, min_program
     programs = {}
     lines = {}
     for p in paths:
-        n = rng.randint(2, 7)
+        # mostly short listings; one in seven is long, so that two-digit line numbers and long span enumerations (wrapped
+        # into <details> by the report) occur
+        n = rng.randint(2, 7) if rng.random() < 0.85 else rng.randint(12, 40)
         lines[p] = n
         taxa = {}
         present = meta_program == "always" or (meta_program == "mostly" and rng.random() < 0.85)
         if present:
             taxa["meta/program"] = [[1, n]]
         for t in rng.sample(TAXA_POOL[1:], rng.randint(0, 5)):
-            cnt = rng.choice([1, 1, 1, 2, 2, 3])
+            cnt = rng.choice([1, 1, 1, 2, 2, 3]) if rng.random() < 0.9 else rng.randint(8, 14)
             spans = [gen_span(rng, n) for _ in range(cnt)]
             if cnt > 1 and rng.random() < 0.3:
                 spans[1] = list(spans[0])  # duplicate span value
@@ -138,6 +147,30 @@ def gen_command(rng, db, ops=None, odd=True, **kw):
     return {"operation": operation, "data": [gen_criterion(rng, db, base, **kw) for _ in range(n)]}
 
 
+def gen_pipeline(rng, db, n, reuse_p=0.35, **kw):
+    """Commands for one filter. A taxon pattern met earlier in the pipeline is reused with probability `reuse_p`
+    (alone or inside a triple): commands that resolve to the same set of taxa must not influence one another
+    (seeded change C06-d: a memoised set of programs mutated in place by a negated triple)."""
+    memory, cmds = [], []
+    for _ in range(n):
+        c = gen_command(rng, db, **kw)
+        data = []
+        for crit in c["data"]:
+            if memory and isinstance(crit, str) and not crit.endswith(".py") and rng.random() < reuse_p:
+                crit = rng.choice(memory)
+            elif memory and isinstance(crit, list):
+                crit = [rng.choice(memory) if rng.random() < reuse_p else crit[0], crit[1],
+                        rng.choice(memory) if rng.random() < reuse_p / 2 else crit[2]]
+            data.append(crit)
+        c["data"] = data
+        cmds.append(c)
+        for crit in data:
+            for pat in ([crit] if isinstance(crit, str) else [crit[0], crit[2]]):
+                if not pat.endswith(".py") and pat not in memory:
+                    memory.append(pat)
+    return cmds
+
+
 def all_patterns(cmds):
     out = []
     for c in cmds:
@@ -186,12 +219,17 @@ def to_py_cmds(cmds):
     """Triples are tuples in a real pipeline file (lists work too); keep lists -> tuples to be faithful."""
     out = []
     for c in cmds:
+        if not isinstance(c, dict) or "raw" in c:
+            out.append(c["raw"] if isinstance(c, dict) else c)  # a command handed over as is (malformed / shell forms)
+            continue
         out.append({"operation": c["operation"], "data": [x if isinstance(x, str) else tuple(x) for x in c["data"]]})
     return out
 
 
-def run_real(db, cmds, strategy="zeno", steps=False):
-    """Recommendations(db).run_pipeline(cmds) on the real code -> canonical dict."""
+def run_real(db, cmds, strategy="zeno", steps=False, split=False):
+    """Recommendations(db).run_pipeline(cmds) on the real code -> canonical dict. With `split`, the commands are given
+    one `run_pipeline` call at a time to the SAME recommender (successive commands are successive commands, however
+    they are handed over; seeded change C06-e)."""
     from paroxython.recommend_programs import Recommendations
 
     def once(cs):
@@ -199,7 +237,13 @@ def run_real(db, cmds, strategy="zeno", steps=False):
         with contextlib.redirect_stdout(io.StringIO()), contextlib.redirect_stderr(io.StringIO()):
             try:
                 rec = Recommendations(d, assessment_strategy=strategy)
-                rec.run_pipeline(to_py_cmds(cs))
+                if split:
+                    for c in cs:
+                        rec.run_pipeline(to_py_cmds([c]))
+                    if not cs:
+                        rec.run_pipeline([])
+                else:
+                    rec.run_pipeline(to_py_cmds(cs))
             except Exception as exc:  # noqa
                 return {"exc": type(exc).__name__}, None
         st = {
